@@ -65,5 +65,6 @@ func debugGen(fam string, seed int64) {
 var genConfigs = map[string]GenCfg{
 	"c01": {MaxTop: 6, MaxBlock: 3, MaxDepth: 3, ExprDepth: 3, Panic: true},
 	"c02": {MaxTop: 8, MaxBlock: 3, MaxDepth: 2, ExprDepth: 2, MaxFuncs: 5, MultiAssign: true, SmallNames: true, Effects: true, Panic: true},
+	"c16": {MaxTop: 6, MaxBlock: 3, MaxDepth: 4, ExprDepth: 2, MaxFuncs: 2, Slices: true, StringOps: true, MultiAssign: true, Panic: true, Builtins: true},
 	"c03": {MaxTop: 12, MaxBlock: 3, MaxDepth: 2, ExprDepth: 2, MaxFuncs: 2, Slices: true, StringOps: true},
 }
